@@ -1717,3 +1717,77 @@ func checkHasParamDeepObject(c *core.Ctx, r *core.Rule, prog *core.Prog) bool {
 	}
 	return okEmpty
 }
+
+// ---------------------------------------------------------------- who may call (C03)
+
+// checkWhoMayCall: every reference to the function (static call, go/defer, bound-method value, function value) inside
+// the loaded module packages comes from a function named in the reviewed table. Keys name the caller, not the line.
+func checkWhoMayCall(c *core.Ctx, r *core.Rule, prog *core.Prog, pkgPath, name string, allowed map[string]string, consequence string) {
+	target := prog.Func(pkgPath, name)
+	if target == nil {
+		r.Undecided("anchor:"+name, "-", name+" not found")
+		return
+	}
+	seenAllowed := map[string]bool{}
+	for _, sp := range prog.SSA.AllPackages() {
+		if sp.Pkg == nil || !strings.HasPrefix(sp.Pkg.Path(), core.Module) {
+			continue
+		}
+		for _, top := range core.PkgFuncs(prog.SSA, sp) {
+			for _, fn := range core.AllFuncs(top) {
+				refs := false
+				var pos token.Pos
+				for _, b := range fn.Blocks {
+					for _, in := range b.Instrs {
+						for _, op := range in.Operands(nil) {
+							if op == nil || *op == nil {
+								continue
+							}
+							switch v := (*op).(type) {
+							case *ssa.Function:
+								if v == target {
+									refs, pos = true, in.Pos()
+								}
+							case *ssa.MakeClosure:
+								if f, ok := v.Fn.(*ssa.Function); ok && strings.HasSuffix(f.Name(), "$bound") && f.Object() == target.Object() {
+									refs, pos = true, in.Pos()
+								}
+							}
+						}
+					}
+				}
+				if !refs {
+					continue
+				}
+				// closures are attributed to the declared function they live in
+				owner := fn
+				for owner.Parent() != nil {
+					owner = owner.Parent()
+				}
+				key := fnKeyFull(owner)
+				if why, ok := allowed[key]; ok {
+					if !seenAllowed[key] {
+						seenAllowed[key] = true
+						r.Pass(fmt.Sprintf("%s may call %s: %s", key, name, why))
+					}
+					continue
+				}
+				r.Fail("who-may-call:"+name+":"+key, c.Pos(pos), fmt.Sprintf("%s calls %s directly; only %s may: %s", key, name, strings.Join(setKeysStr(allowed), ", "), consequence))
+			}
+		}
+	}
+	for k := range allowed {
+		if !seenAllowed[k] {
+			r.Undecided("who-may-call:"+name+":stale:"+k, "-", fmt.Sprintf("the reviewed caller %s no longer calls %s: the table is stale", k, name))
+		}
+	}
+}
+
+func setKeysStr(m map[string]string) []string {
+	var ks []string
+	for k := range m {
+		ks = append(ks, k)
+	}
+	sort.Strings(ks)
+	return ks
+}
